@@ -113,9 +113,11 @@ func solveVC(vc *VC, prelude, dir string, timeoutS, seed int, twoSolvers bool) {
 		// clauses recorded as known findings: a short budget is enough to see them pass once repaired
 		timeoutS = 5
 	}
-	if vc.MustFail && timeoutS > 3 {
-		// vacuity covers are satisfiability checks: only a proof of unsat matters
-		timeoutS = 3
+	if vc.MustFail {
+		// vacuity covers are satisfiability checks: only a proof of unsat matters; one solver, 2 s
+		r := runSolver(context.Background(), solvers[0], file, 2, seed)
+		vc.Status, vc.Solver, vc.Output, vc.TimeS = r.status, r.solver, r.out, time.Since(start).Seconds()
+		return
 	}
 	if vc.fv.fc != nil && vc.fv.fc.Budget > 0 && vc.fv.fc.Budget < timeoutS {
 		timeoutS = vc.fv.fc.Budget
